@@ -127,8 +127,10 @@ structure Ref where
   reused : Bool := false
   dropped : Bool := false
   dialErr : Bool := false
+  why : String := ""
 
-def Ref.fail (r : Ref) : Ref := { r with ok := false }
+def Ref.fail (r : Ref) (why : String := "malformed-observation") : Ref :=
+  { r with ok := false, why := if r.why.isEmpty then why else r.why }
 
 def specStep (r : Ref) (op : POp) (o : Json) : Ref :=
   match op with
@@ -136,16 +138,16 @@ def specStep (r : Ref) (op : POp) (o : Json) : Ref :=
     let res := getStrD o "r"
     match res, getNat? o "id" with
     | "reused", some id =>
-      if r.last.lookup k == some id then { r with reused := true } else r.fail
+      if r.last.lookup k == some id then { r with reused := true } else r.fail "reused-a-connection-that-is-not-the-pooled-one"
     | "dialled", some id =>
       let fresh := match r.maxId with
         | none => true
         | some m => decide (m < id)
       if fresh && (r.last.lookup k).isNone then
         { r with last := (k, id) :: r.last, maxId := some id }
-      else r.fail
-    | "error", none => if (r.last.lookup k).isNone then { r with dialErr := true } else r.fail
-    | _, _ => r.fail
+      else r.fail (if fresh then "dialled-although-a-live-connection-is-pooled" else "dialled-connection-not-fresh")
+    | "error", none => if (r.last.lookup k).isNone then { r with dialErr := true } else r.fail "error-although-a-live-connection-is-pooled"
+    | _, _ => r.fail "get-handed-out-a-closed-connection"
   | .shut k => { r with last := r.last.filter (·.1 != k) }
   | .table rs => { r with urls := rs.flatMap (·.urls) }
   | .cleanup =>
@@ -155,7 +157,11 @@ def specStep (r : Ref) (op : POp) (o : Json) : Ref :=
     let ok := keys.all (fun k => r.urls.contains k) && expectKept.all (fun k => keys.contains k)
       && keys.all (fun k => (r.last.lookup k).isSome)   -- and no closed connection stays pooled
     let last' := r.last.filter fun kv => r.urls.contains kv.1
-    { r with last := last', ok := r.ok && ok, dropped := r.dropped || last'.length < r.last.length }
+    let why := if !keys.all (fun k => r.urls.contains k) then "cleanup-kept-a-backend-that-left-the-table"
+               else if !expectKept.all (fun k => keys.contains k) then "cleanup-dropped-a-present-backend"
+               else "cleanup-kept-a-closed-connection"
+    { r with last := last', ok := r.ok && ok, dropped := r.dropped || last'.length < r.last.length,
+             why := if r.why.isEmpty && !ok then why else r.why }
   | .bad => r.fail
 
 def poolH : Handler := fun inp impl => do
@@ -173,7 +179,11 @@ def poolH : Handler := fun inp impl => do
   -- at the end exactly the connections last handed out and never closed/removed are live: nothing leaks
   let liveI := natsOf (getArrD impl "final_live")
   let spec := r.ok && handedI == closedI && liveI == sortNats (r.last.map (·.2))
-  let tag := (if r.reused then "reuse" else "noreuse") ++ (if r.dropped then "+drop" else "") ++ (if r.dialErr then "+dialerr" else "")
+  let tag :=
+    if !r.ok then r.why
+    else if handedI != closedI then "removed-connection-not-closed"
+    else if !spec then "connection-open-outside-the-pool"
+    else (if r.reused then "reuse" else "noreuse") ++ (if r.dropped then "+drop" else "") ++ (if r.dialErr then "+dialerr" else "")
   return ({ model := model, agree := model == impl, spec := spec,
             nontrivial := r.reused || r.dropped, tag := tag } : Verdict).toJson
 
@@ -332,7 +342,8 @@ def raceH : Handler := fun inp impl => do
   let distinct := getNatD impl "distinct"
   let opn := getNatD impl "open"
   let spec := opn == 0 && getBoolD impl "usable" && getBoolD impl "shared" && getNatD impl "keys_left" == 0
-  let tag := if opn > 0 then "orphan-after-race"
+  let tag := if getNatD impl "keys_left" != 0 then "cleanup-kept-a-backend-that-left-the-table"
+             else if opn > 0 then "orphan-after-race"
              else if !getBoolD impl "usable" then "closed-connection-handed-out"
              else if !getBoolD impl "shared" then "later-call-not-on-pooled-connection"
              else if distinct > 1 then "several-connections-handed-out"
